@@ -8,6 +8,8 @@ if [ -n "$(git status --porcelain --untracked-files=no)" ]; then echo "/repo not
 git apply "$patch" || { echo "patch does not apply" >&2; exit 3; }
 trap 'git -C /repo checkout -- . ' EXIT
 cd /verif
+# evidence files describe the unchanged tree only: do not overwrite them from a run on a seeded change
+export VERIF_NO_EVIDENCE=1
 "$@"
 rc=$?
 exit $rc
